@@ -107,10 +107,9 @@ SPECS["C04"] = dict(
     assumptions=["cell model of the CPR encoder (DO-260B A.1.7.3): extended count E = floor(x/D * 2^17 + 1/2); two reports come from one point iff their half-open cells intersect",
                  "decoder is right iff it returns the centre of the later report's cell (every point of a cell is within 2.6 m of the centre), tolerance 1e-9 degrees"],
     harnesses=[
-        H("c04::lat_north_even_last", timeout=3600, mem_gb=4, bounds="E0 in [0, 60*2^15], E1 in [0, 59*2^15], cells intersecting"),
-        H("c04::lat_north_odd_last", timeout=3600, mem_gb=4, bounds="same, odd report last"),
-        H("c04::lat_south_even_last", timeout=3600, mem_gb=4, bounds="E0 in [-60*2^15, 0], E1 in [-59*2^15, 0]"),
-        H("c04::lat_south_odd_last", timeout=3600, mem_gb=4, bounds="same, odd report last"),
+    ] + [H("c04::lat_%s%02d_%s_last" % (hm, z, o), tier=("quick" if (hm, z) in (("n", 0), ("n", 7), ("n", 14), ("s", 0), ("s", 14)) else "thorough"), timeout=3600, mem_gb=4,
+           bounds="even count in latitude zone %d (%s), odd count any; cells intersecting within [-90, 90]" % (z, "north" if hm == "n" else "south"))
+         for hm in ("n", "s") for z in range(15) for o in ("even", "odd")] + [
         H("c04::same_parity_none", timeout=600, mem_gb=2, bounds="all 2^68 count combinations x 2 parities"),
         H("c04::range_any_pair", timeout=3600, mem_gb=6, bounds="all 2^68 count combinations x 2 orders"),
     ] + [H("c04::lon_nl%02d_%s_last" % (n, o), tier=("quick" if n in (1, 2, 30, 59) else "thorough"), timeout=5400, mem_gb=4, bounds="NL = %d, F0 in [0, %d*2^17], F1 in [0, %d*2^17], cells intersecting" % (n, n, max(n - 1, 1)))
@@ -139,6 +138,60 @@ SPECS["C05"] = dict(
          for e in ("air", "surf") for p in ("even", "odd") for n in range(1, 60)],
 )
 
+SPECS["C07"] = dict(
+    feature="c07",
+    functions=["derived Serialize of Message, DF, ADSB, ME, ControlField, DF20/DF21DataSelector and every BDS struct", "hand-written Serialize of ICAO, IcaoParity, IdentityCode, AirspeedSubsonic/SupersonicDecoding",
+               "serde::__private::ser::{FlatMapSerializer, TaggedSerializer} (the real serde machinery that rejects non-flattenable shapes)", "TimedMessage Serialize, as_hex (hex::encode)"],
+    trusted_base=[KANI, DEKU, FMT + " — except hex6_real_format, which runs the real formatter", "harness/src/recser.rs: structure-recording serde::Serializer (same accept/reject structure as serde_json for maps/structs/flatten; validated natively against serde_json by tools/diffval)",
+                  "libm::atan2/hypot contract stubs"],
+    bounds="payload level: all 2^56 payloads per type (every subtype / version / reserved shape is a symbolic choice inside the harness); top level: records constructed around every accepted payload with all header fields and addresses symbolic; unwind 17-30",
+    outside="serde_json's digit generation and string escaping (the recorder checks finiteness and control characters instead); which field feeds icao24 is identified by value capture, its hex text by hex6_real_format (composition); decoding the hex again gives the same fields = C01 determinism",
+    assumptions=["key clashes are checked per JSON object with the flattened keys merged into their parent, as serde_json would emit them"],
+    harnesses=[
+        H("c07::ser_me_bds05", timeout=1800, mem_gb=4, bounds="all 2^56 payloads of BDS 0,5 wrapped in ME (tag bds)"),
+        H("c07::ser_me_bds06", timeout=1800, mem_gb=4, bounds="all 2^56 payloads of BDS 0,6 wrapped in ME (tag bds)"),
+        H("c07::ser_me_bds09", timeout=1800, mem_gb=4, bounds="all 2^56 payloads of BDS 0,9 wrapped in ME (tag bds)"),
+        H("c07::ser_me_bds61", timeout=1800, mem_gb=4, bounds="all 2^56 payloads of BDS 6,1 wrapped in ME (tag bds)"),
+        H("c07::ser_me_bds62", timeout=1800, mem_gb=4, bounds="all 2^56 payloads of BDS 6,2 wrapped in ME (tag bds)"),
+        H("c07::ser_me_bds65", timeout=1800, mem_gb=4, bounds="all 2^56 payloads of BDS 6,5 wrapped in ME (tag bds)"),
+        H("c07::ser_me_bds08", tier="thorough", timeout=3600, mem_gb=12, ulimit_gb=30, bounds="all 2^56 payloads of BDS 0,8 wrapped in ME"),
+        H("c07::ser_me_other", timeout=900, mem_gb=3, bounds="type codes 0, 23, 24, 25-27, 30 with arbitrary payload bits"),
+        H("c07::ser_bds10", timeout=1800, mem_gb=4, bounds="all 2^56 payloads, Comm-B register 1,0"),
+        H("c07::ser_bds17", timeout=1800, mem_gb=4, bounds="all 2^56 payloads, Comm-B register 1,7"),
+        H("c07::ser_bds18", timeout=1800, mem_gb=4, bounds="all 2^56 payloads, Comm-B register 1,8"),
+        H("c07::ser_bds19", timeout=1800, mem_gb=4, bounds="all 2^56 payloads, Comm-B register 1,9"),
+        H("c07::ser_bds30", timeout=1800, mem_gb=4, bounds="all 2^56 payloads, Comm-B register 3,0"),
+        H("c07::ser_bds40", timeout=1800, mem_gb=4, bounds="all 2^56 payloads, Comm-B register 4,0"),
+        H("c07::ser_bds44", timeout=1800, mem_gb=4, bounds="all 2^56 payloads, Comm-B register 4,4"),
+        H("c07::ser_bds45", timeout=1800, mem_gb=4, bounds="all 2^56 payloads, Comm-B register 4,5"),
+        H("c07::ser_bds50", timeout=1800, mem_gb=4, bounds="all 2^56 payloads, Comm-B register 5,0"),
+        H("c07::ser_bds60", timeout=1800, mem_gb=4, bounds="all 2^56 payloads, Comm-B register 6,0"),
+        H("c07::ser_bds20", tier="thorough", timeout=3600, mem_gb=14, ulimit_gb=34, bounds="all 2^56 payloads, Comm-B register 2,0 (string-valued)"),
+        H("c07::ser_bds21", tier="thorough", timeout=3600, mem_gb=14, ulimit_gb=34, bounds="all 2^56 payloads, Comm-B register 2,1 (string-valued)"),
+        H("c07::hex6_real_format", timeout=1200, mem_gb=4, bounds="all 2^24 addresses through the REAL format machinery, ICAO and IcaoParity"),
+        H("c07::top_short", timeout=1800, mem_gb=4, bounds="DF 0/4/5/11 records, all header fields and addresses symbolic"),
+        H("c07::top_adsb_bds05", tier="thorough", timeout=3600, mem_gb=6, bounds="DF17 and DF18 record around every accepted BDS 0,5 payload"),
+        H("c07::top_adsb_bds06", tier="thorough", timeout=3600, mem_gb=6, bounds="DF17 and DF18 record around every accepted BDS 0,6 payload"),
+        H("c07::top_adsb_bds09", tier="thorough", timeout=3600, mem_gb=6, bounds="DF17 and DF18 record around every accepted BDS 0,9 payload"),
+        H("c07::top_adsb_bds61", tier="thorough", timeout=3600, mem_gb=6, bounds="DF17 and DF18 record around every accepted BDS 6,1 payload"),
+        H("c07::top_adsb_bds62", tier="thorough", timeout=3600, mem_gb=6, bounds="DF17 and DF18 record around every accepted BDS 6,2 payload"),
+        H("c07::top_adsb_bds65", tier="thorough", timeout=3600, mem_gb=6, bounds="DF17 and DF18 record around every accepted BDS 6,5 payload"),
+        H("c07::top_adsb_bds08", tier="thorough", timeout=3600, mem_gb=14, ulimit_gb=34, bounds="DF17 and DF18 record around every accepted BDS 0,8 payload"),
+        H("c07::top_long_headers", timeout=1800, mem_gb=4, bounds="DF 16/20/21 (empty selector) / 19 / 24 records, symbolic headers"),
+        H("c07::top_commb_bds10", tier="thorough", timeout=3600, mem_gb=6, bounds="DF20 and DF21 record whose selector holds every accepted register 1,0"),
+        H("c07::top_commb_bds17", tier="thorough", timeout=3600, mem_gb=6, bounds="DF20 and DF21 record whose selector holds every accepted register 1,7"),
+        H("c07::top_commb_bds30", tier="thorough", timeout=3600, mem_gb=6, bounds="DF20 and DF21 record whose selector holds every accepted register 3,0"),
+        H("c07::top_commb_bds40", tier="thorough", timeout=3600, mem_gb=6, bounds="DF20 and DF21 record whose selector holds every accepted register 4,0"),
+        H("c07::top_commb_bds44", tier="thorough", timeout=3600, mem_gb=6, bounds="DF20 and DF21 record whose selector holds every accepted register 4,4"),
+        H("c07::top_commb_bds45", tier="thorough", timeout=3600, mem_gb=6, bounds="DF20 and DF21 record whose selector holds every accepted register 4,5"),
+        H("c07::top_commb_bds50", tier="thorough", timeout=3600, mem_gb=6, bounds="DF20 and DF21 record whose selector holds every accepted register 5,0"),
+        H("c07::top_commb_bds60", tier="thorough", timeout=3600, mem_gb=6, bounds="DF20 and DF21 record whose selector holds every accepted register 6,0"),
+        H("c07::top_commb_bds05", tier="thorough", timeout=3600, mem_gb=6, bounds="DF20 and DF21 record whose selector holds every accepted register 0,5"),
+        H("c07::top_commb_bds20", tier="thorough", timeout=3600, mem_gb=14, ulimit_gb=34, bounds="DF20/DF21 with every accepted BDS 2,0"),
+        H("c07::timed_frame", timeout=1200, mem_gb=4, bounds="TimedMessage with any 7- or 14-byte frame"),
+    ],
+)
+
 SPECS["C08"] = dict(
     feature="c08",
     functions=["rs1090::decode::bds::{bds05,bds06,bds08,bds09,bds20,bds21,bds40,bds44,bds45,bds50,bds60,bds61,bds62} readers (same entry points as C01(a))",
@@ -161,6 +214,27 @@ SPECS["C08"] = dict(
         H("c08::range_bds45", tier="quick", timeout=900, mem_gb=4, ulimit_gb=None, bounds="all 2^56 payloads of BDS 4,5"),
         H("c08::range_bds50", tier="quick", timeout=900, mem_gb=4, ulimit_gb=None, bounds="all 2^56 payloads of BDS 5,0"),
         H("c08::range_bds60", tier="quick", timeout=900, mem_gb=4, ulimit_gb=None, bounds="all 2^56 payloads of BDS 6,0"),
+    ],
+)
+
+SPECS["C11"] = dict(
+    feature="c11",
+    functions=["jet1090::filters::Filters::is_in", "Filters::aircraft_in", "Filters::df_in (crates/jet1090/src/filters.rs included whole via #[path], unchanged)"],
+    trusted_base=[KANI, FMT],
+    bounds="filter lists of length 0, 1, 2 (the code only calls contains / is_empty); df labels over {0,4,5,11,16,17,18,19,20,21,24,99}; every 24-bit address in record and filters; unwind 8",
+    outside="longer filter lists; records are constructed from symbolic public fields (a superset of the decodable records, with the decode invariant ap == crc of the AP formats assumed — decided under C02); that the JSON shows the same df/address fields is C07",
+    assumptions=["displayed address = AA (DF11/17/18) or AP-recovered address (DF0/4/5/16/20/21); displayed df = the decimal downlink format"],
+    harnesses=[
+        H("c11::df0", timeout=900, mem_gb=3, bounds="DF0 record with symbolic addresses/fields; filters: absent/empty/1/2 entries, 12 labels, arbitrary 24-bit addresses"),
+        H("c11::df4", timeout=900, mem_gb=3, bounds="DF4 record with symbolic addresses/fields; filters: absent/empty/1/2 entries, 12 labels, arbitrary 24-bit addresses"),
+        H("c11::df5", timeout=900, mem_gb=3, bounds="DF5 record with symbolic addresses/fields; filters: absent/empty/1/2 entries, 12 labels, arbitrary 24-bit addresses"),
+        H("c11::df11", timeout=900, mem_gb=3, bounds="DF11 record with symbolic addresses/fields; filters: absent/empty/1/2 entries, 12 labels, arbitrary 24-bit addresses"),
+        H("c11::df16", timeout=900, mem_gb=3, bounds="DF16 record with symbolic addresses/fields; filters: absent/empty/1/2 entries, 12 labels, arbitrary 24-bit addresses"),
+        H("c11::df17", timeout=900, mem_gb=3, bounds="DF17 record with symbolic addresses/fields; filters: absent/empty/1/2 entries, 12 labels, arbitrary 24-bit addresses"),
+        H("c11::df18", timeout=900, mem_gb=3, bounds="DF18 record with symbolic addresses/fields; filters: absent/empty/1/2 entries, 12 labels, arbitrary 24-bit addresses"),
+        H("c11::df20", timeout=900, mem_gb=3, bounds="DF20 record with symbolic addresses/fields; filters: absent/empty/1/2 entries, 12 labels, arbitrary 24-bit addresses"),
+        H("c11::df21", timeout=900, mem_gb=3, bounds="DF21 record with symbolic addresses/fields; filters: absent/empty/1/2 entries, 12 labels, arbitrary 24-bit addresses"),
+        H("c11::undecoded_never_kept", timeout=600, mem_gb=2, bounds="message: None x every configuration"),
     ],
 )
 
